@@ -241,4 +241,32 @@ CASES = [
     S("s-cr-validate-noreset", CR, "CorrelationRemover.transform passes reset=False (repair of F5g)",
       ("        X = validate_data(self, X)\n        if self._n_features_in_ != X.shape[1]:\n",
        "        X = validate_data(self, X, reset=False)\n        if self._n_features_in_ != X.shape[1]:\n")),
+    # ------------------------------------------------------------------ predictOtherCalls (what is NOT followed during prediction)
+    R("r-adv-predict-fn-temp", ADV, "_AdversarialFairness.predict: temporary for the predictor function (the call is then on a local: "
+      "the generated list loses `predictor_function_()`, every theorem survives)",
+      ("        y_pred = self.predictor_function_(y_pred)\n", "        decide = self.predictor_function_\n        y_pred = decide(y_pred)\n"),
+      expect="refused",
+      why="refused by adv_schedule.py (C17), which pins the statement shapes of predict; lifecycle.py itself emits the shorter "
+          "predictOtherCalls list (class b: src_predict_other_calls_trusted / src_predict_pure_flags are subset statements)"),
+    R("r-gs-predict-logging", GS, "GridSearch.predict: logger.debug before the delegation",
+      ("        return self.predictors_[self.best_idx_].predict(X)\n",
+       "        logger.debug(\"delegating\")\n        return self.predictors_[self.best_idx_].predict(X)\n")),
+    R("r-adv-predict-rename", ADV, "_AdversarialFairness.predict: rename the local y_pred",
+      ("        y_pred = self._raw_predict(X)\n        y_pred = self.predictor_function_(y_pred)\n        y_pred = self._y_transform.inverse_transform(y_pred)\n        return y_pred\n",
+       "        out = self._raw_predict(X)\n        out = self.predictor_function_(out)\n        out = self._y_transform.inverse_transform(out)\n        return out\n")),
+    R("r-adv-predict-compose", ADV, "_AdversarialFairness.predict: the three steps composed in one expression",
+      ("        y_pred = self._raw_predict(X)\n        y_pred = self.predictor_function_(y_pred)\n        y_pred = self._y_transform.inverse_transform(y_pred)\n        return y_pred\n",
+       "        return self._y_transform.inverse_transform(self.predictor_function_(self._raw_predict(X)))\n")),
+    S("s-gs-predict-refits", GS, "GridSearch.predict refits the selected predictor",
+      ("        return self.predictors_[self.best_idx_].predict(X)\n",
+       "        self.predictors_[self.best_idx_].fit(X, self.predictors_[self.best_idx_].predict(X))\n        return self.predictors_[self.best_idx_].predict(X)\n")),
+    S("s-gs-predict-pops", GS, "GridSearch.predict_proba drops a predictor from the fitted list",
+      ("        return self.predictors_[self.best_idx_].predict_proba(X)\n",
+       "        self.predictors_.pop()\n        return self.predictors_[self.best_idx_].predict_proba(X)\n")),
+    S("s-adv-predict-refits-transform", ADV, "_AdversarialFairness.predict refits the label transformer on the predictions",
+      ("        y_pred = self._y_transform.inverse_transform(y_pred)\n        return y_pred\n",
+       "        self._y_transform.fit(y_pred)\n        y_pred = self._y_transform.inverse_transform(y_pred)\n        return y_pred\n")),
+    S("s-adv-predict-callbacks", ADV, "_AdversarialFairness.predict runs the user callbacks",
+      ("        y_pred = self._y_transform.inverse_transform(y_pred)\n        return y_pred\n",
+       "        y_pred = self._y_transform.inverse_transform(y_pred)\n        self.callbacks_[0](y_pred)\n        return y_pred\n")),
 ]
